@@ -670,13 +670,38 @@ func checkAgainstModel(pj *simdjson.ParsedJson, roots []*rj.Node, nd bool, inv i
 	return checkSerializeOnly(pj, roots, inv, mc)
 }
 
+// histSer / histDst: Serializer and destination recycled from step to step of one history (reset when a history starts;
+// histories run on one goroutine). Every other round trip uses them, the others use fresh objects.
+var (
+	histSer   *simdjson.Serializer
+	histDst   *simdjson.ParsedJson
+	histCount int
+)
+
+func resetHistSer() { histSer, histDst, histCount = nil, nil, 0 }
+
 func checkSerializeOnly(pj *simdjson.ParsedJson, roots []*rj.Node, inv invariantSet, mc func(o canonOpts) []byte) error {
 	if inv.serialize {
 		s := simdjson.NewSerializer()
+		var dst *simdjson.ParsedJson
+		histCount++
+		recycled := histCount%2 == 0
+		if recycled {
+			if histSer == nil {
+				histSer = simdjson.NewSerializer()
+			}
+			s, dst = histSer, histDst
+		}
 		blob := s.Serialize(nil, *pj)
-		pj2, err := s.Deserialize(blob, nil)
+		pj2, err := s.Deserialize(blob, dst)
 		if err != nil {
+			if recycled {
+				return fmt.Errorf("Deserialize(Serialize(tape)) with the Serializer and into the destination of the previous round trip: %v", err)
+			}
 			return fmt.Errorf("Deserialize(Serialize(tape)): %v", err)
+		}
+		if recycled {
+			histDst = pj2
 		}
 		if err := compareWalkers(pj2, []walker{wW1, wW2, wW5}, mc); err != nil {
 			return fmt.Errorf("after a serialize round trip: %v", err)
@@ -990,6 +1015,7 @@ func parseModelRoots(doc []byte, nd bool) ([]*rj.Node, error) {
 
 // runHistory replays the case on the real tape and the model; check runs after every step.
 func runHistory(c historyCase, inv invariantSet, after func(step int, pj *simdjson.ParsedJson, roots []*rj.Node) error) error {
+	resetHistSer()
 	roots, err := parseModelRoots(c.Doc, c.ND)
 	if err != nil {
 		return err
